@@ -17,6 +17,9 @@ let parsed c =
 let show_lines (ls : line list) =
   String.concat " | " (List.map (fun l -> Printf.sprintf "%s[%s]" l.lty (String.concat "," (List.map string_of_int l.toks))) ls)
 
+let show_lines_m (ls : lline list) =
+  String.concat " | " (List.map (fun l -> Printf.sprintf "%s[%s]" (name_of_llt l.ll_type) (String.concat "," (List.map (fun t -> string_of_int (int_of_nat t)) l.ll_toks))) ls)
+
 let u_linescover c =
   match parsed c with
   | Some (tys, ls) -> if lines_cover tys ls then Ok_ else Viol ("lines_not_covering", "parse result: " ^ show_lines (List.assoc "parsed" c.lines))
@@ -31,3 +34,29 @@ let u_eofline c =
   | None -> Skip
 
 let () = register [ ("linescover", u_linescover); ("parents", u_parents); ("eofline", u_eofline) ]
+
+(* unit consolidators: ConditionalDirectiveConsolidator and DeindentPackageDirectives, bit-exact
+   (std binary search transcription), with the hypotheses of the cover-preservation theorem monitored *)
+let lines_at c name = try Some (mk_lines (List.assoc name c.lines)) with Not_found -> None
+let u_consolidators c =
+  match parsed c, lines_at c "conddir", lines_at c "deindent" with
+  | Some (tys, ls), Some cd, Some de ->
+    if not (conddir_lines_singleton ls) then Diff "hypothesis conddir_lines_singleton fails on the parse result"
+    else if not (no_voided ls) then Diff "hypothesis no_voided fails on the parse result"
+    else if not (unique_first_tokens ls) then Diff "hypothesis unique_first_tokens fails on the parse result"
+    else begin
+      match conddir_consolidate_chk tys ls with
+      | None -> Diff "model: expand_line would underflow (decreasing token list)"
+      | Some _ ->
+        let m = conddir_consolidate_std tys ls in
+        if m <> cd then Diff ("conddir: model " ^ show_lines_m m ^ " impl " ^ show_lines (List.assoc "conddir" c.lines))
+        else if conddir_consolidate tys ls <> m then Diff "conddir: first-match model differs from the binary-search model"
+        else
+          let d = deindent_package tys cd in
+          if d <> de then Diff ("deindent: model differs; impl " ^ show_lines (List.assoc "deindent" c.lines))
+          else if not (lines_cover_nv tys m) then Viol ("lines_not_covering_after_consolidation", show_lines (List.assoc "conddir" c.lines))
+          else Ok_
+    end
+  | _ -> Skip
+
+let () = register [ ("consolidators", u_consolidators) ]
